@@ -110,7 +110,7 @@ def run(ctx):
     quick = ctx.quick()
     rng = ctx.rng
     if os.path.exists(os.path.join(vlib.COQ, PROP_FILE)):
-        vlib.proof_stage(ctx, PROP_FILE, [], extra_targets=[])
+        vlib.proof_stage(ctx, PROP_FILE, ["classify", "coord", "blocks"], extra_targets=[])
     else:
         ctx.obligation_broken("proof", PROP_FILE, "Props/C07.v missing")
     ok, log = vlib.build_s4()
